@@ -19,7 +19,7 @@ fn records(printed: &[String]) -> Vec<String> { printed.iter().filter(|l| !l.is_
 impl Monitor for C07 {
     fn id(&self) -> &'static str { "C07" }
     fn rule(&self) -> &'static str {
-        "case = plain / DISTINCT / aggregate / join (fan-out) / join-aggregate statement over 1-3 files (projections that are NULL on some rows, so NULL-only rows occur); for every n in 0..rows+1 the statement with LIMIT n is executed through FileExecutor: its records must be the first min(n, rows) records of the unlimited run; a non-aggregate query must not consume input beyond the line that produced its n-th row (none for n = 0), an aggregate query reads everything. Exhaustive over n per case. Non-trivial = the unlimited output has >= 2 rows and 0 < n < rows, or n = 0, or fan-out > 1; distinct by (case, n) hash"
+        "case = plain / DISTINCT / aggregate / join (fan-out) / join-aggregate statement over 1-3 files (projections that are NULL on some rows, so NULL-only rows occur); for every n in 0..rows+1 - and for three limits around 2^8 / 2^16 / 2^31 / 2^32 / 2^33 / 2^53 / 2^62 / i64::MAX plus n + 2^32 for a small n, all larger than the result - the statement with LIMIT n is executed through FileExecutor: its records must be the first min(n, rows) records of the unlimited run; a non-aggregate query must not consume input beyond the line that produced its n-th row (none for n = 0), an aggregate query reads everything. Exhaustive over n per case. Non-trivial = the unlimited output has >= 2 rows and 0 < n < rows, or n = 0, or fan-out > 1; distinct by (case, n) hash"
     }
     fn assumptions(&self) -> Vec<String> { vec!["which line produced which row is taken from per-line execution of the unlimited statement (engine boundary)".into()] }
     fn sizes(&self, tier: Tier) -> Sizes { match tier { Tier::Quick => Sizes { cases: 4_000, min_nontrivial: 8_000 }, Tier::Thorough => Sizes { cases: 200_000, min_nontrivial: 400_000 } } }
@@ -91,6 +91,20 @@ impl Monitor for C07 {
             obs.hit("limits:sampled");
             v
         };
+        // limits beyond every width a count might be narrowed to (8, 16, 31, 32, 53, 63 bits): three of them per case, one of
+        // them at or above 2^32 - all of them exceed the result, so the whole unlimited result is due
+        let mut ns = ns;
+        {
+            const WIDE: [u64; 16] = [255, 256, 257, 65_535, 65_536, 65_537, (1 << 31) - 1, 1 << 31, (1 << 32) - 1, 1 << 32, (1 << 32) + 1, (1 << 32) + 3, 1 << 33, 1 << 53, (1 << 62) + 1, i64::MAX as u64];
+            let mut r = Rng::new(base.tag ^ 0x51ed);
+            let mut extra = vec![WIDE[r.below(WIDE.len())], WIDE[r.below(WIDE.len())], WIDE[9 + r.below(7)]];
+            // ... and n + 2^32 for a small n: a count narrowed to 32 bits would stop after n rows
+            extra.push((1u64 << 32) + r.below(rows + 2) as u64);
+            extra.retain(|n| *n > rows as u64 + 1);
+            extra.sort(); extra.dedup();
+            if !extra.is_empty() { obs.hit("limits:wide"); }
+            ns.extend(extra);
+        }
         for n in ns {
             obs.evals += 1;
             let out = match run(Some(n), "l") { Ok(o) => o, Err(e) => { vs.push(Violation::new(format!("limit|{}|statement-rejected", shape), e)); break; } };
